@@ -183,17 +183,15 @@ theorem sdist_time (sde : Option String) (p : SdistPlan) :
 example : archiveMtime (some "1727740800") = 1727740800 ∧ archiveMtime (some "x") = 0 ∧ archiveMtime (some " 12 ") = 12 := by
   decide
 
-/-- **A previous build does not leak into the next one** — as far as the selection model goes (`sel` abstract): files
-left behind that no include rule reaches (`dist/*.whl`, `dist/*.tar.gz`, `build/…`) change nothing, wherever the walk
-lists them. -/
+/-- **A previous build does not leak into the next one** — the statement with abstract include rules.  It is FALSE as
+it stands (`rebuild_idempotent_full_statement_false` below): an include rule may select files below `dist/`. -/
 def rebuild_idempotent_full_statement : Prop :=
   ∀ (H : String → String) (sde : Option String) (p : WheelPlan) (rules : List IncludeRule) (tree extra : List FileEntry),
     (∀ f ∈ extra, f.rel.head? = some "dist" ∨ f.rel.head? = some "build") →
     describeWheel H sde { p with toAdd := selectWheel rules (tree ++ extra) } =
     describeWheel H sde { p with toAdd := selectWheel rules tree }
 
-/-- proved part: under the extra hypothesis that no include rule selects a left-over file (true of every project
-whose `packages`/`include` patterns do not reach into `dist/` or `build/`; checked on real rebuilds by vp/c08.py) -/
+/-- proved for abstract rules under the hypothesis that no include rule selects a left-over file -/
 theorem rebuild_idempotent_partial (H : String → String) (sde : Option String) (p : WheelPlan) (rules : List IncludeRule)
     (tree extra : List FileEntry) (hx : ∀ f ∈ extra, ∀ r ∈ rules, r.sel f.rel = false) :
     describeWheel H sde { p with toAdd := selectWheel rules (tree ++ extra) } =
@@ -211,7 +209,73 @@ theorem rebuild_idempotent_partial (H : String → String) (sde : Option String)
     rw [this, List.append_nil]
   rw [this]
 
-/-- the same for the sdist -/
+/-- **Rebuild idempotence, discharged for glob rules.**  Let every include rule be a glob rule (`packages` / `include`
+entries and the fixed legal-file patterns: base directory + parsed pattern).  Left-overs of an earlier build are files
+with a `__pycache__` component, or files below one of the top-level names `tops` (`dist`, `build`, `<name>.egg-info`).
+If every rule *avoids* every name in `tops` — decidable on the configuration: a rule based at the project root avoids
+`D` iff its first pattern segment is neither `**` nor matches `D` (`fnmatch`), a rule based elsewhere iff its base does
+not start with `D` — then the wheel description with the left-overs present equals the one without.  Bytecode caches
+need no condition.  (Exclusion by `exclude`/VCS only removes files, so it cannot add a left-over.) -/
+theorem rebuild_idempotent (H : String → String) (sde : Option String) (p : WheelPlan) (specs : List GlobSpec)
+    (tops : List String) (tree extra : List FileEntry)
+    (hx : ∀ f ∈ extra, isLeftover tops f.rel = true)
+    (hav : ∀ g ∈ specs, ∀ D ∈ tops, g.avoids D = true) :
+    describeWheel H sde { p with toAdd := selectWheel (specs.map globRule) (tree ++ extra) } =
+    describeWheel H sde { p with toAdd := selectWheel (specs.map globRule) tree } := by
+  apply rebuild_idempotent_partial
+  intro f hf r hr
+  obtain ⟨g, hg, rfl⟩ := List.mem_map.1 hr
+  exact sel_leftover g tops (hav g hg) f.rel (hx f hf)
+
+/-- the same for the sdist (`sel` = some glob rule selects; the additional files of the sdist are glob rules too:
+the legal-file patterns, or literal paths, at the project root) -/
+theorem rebuild_idempotent_sdist (sde : Option String) (tarDir pd : String) (pn : Nat) (su : Option (String × Nat))
+    (specs : List GlobSpec) (tops : List String) (tree extra : List FileEntry)
+    (hx : ∀ f ∈ extra, isLeftover tops f.rel = true)
+    (hav : ∀ g ∈ specs, ∀ D ∈ tops, g.avoids D = true) :
+    describeSdist sde ⟨tarDir, selectSdist (fun q => specs.any (·.sel q)) (tree ++ extra), pd, pn, su⟩ =
+    describeSdist sde ⟨tarDir, selectSdist (fun q => specs.any (·.sel q)) tree, pd, pn, su⟩ := by
+  have : selectSdist (fun q => specs.any (·.sel q)) (tree ++ extra) = selectSdist (fun q => specs.any (·.sel q)) tree := by
+    unfold selectSdist
+    rw [List.filter_append]
+    have : List.filter (fun f : FileEntry => specs.any (·.sel f.rel)) extra = [] := by
+      rw [List.filter_eq_nil_iff]
+      intro f hf
+      simp only [List.any_eq_true, not_exists, not_and, Bool.not_eq_true]
+      intro g hg
+      exact sel_leftover g tops (hav g hg) f.rel (hx f hf)
+    rw [this, List.append_nil]
+  rw [this]
+
+/-- the decidable condition is needed, and exactly where expected: `include = ["dist/*"]` does not avoid `dist` and
+selects the first build's archive; the legal-file pattern `LICEN[SC]E*` reaches a `LICENSE.egg-info` directory;
+the usual patterns avoid `dist` and `build` -/
+example :
+    let g : GlobSpec := ⟨[], ⟨[.wild "dist", .wild "*"], false⟩, false, fun _ => ""⟩
+    g.avoids "dist" = false ∧ g.sel ["dist", "x-1.0.tar.gz"] = true ∧ g.avoids "build" = true := by decide
+
+example : patternReaches ⟨[.wild "LICEN[SC]E*"], false⟩ "LICENSE.egg-info" = true ∧
+    patternReaches ⟨[.wild "LICEN[SC]E*"], false⟩ "dist" = false ∧
+    patternReaches ⟨[.wild "src"], false⟩ "build" = false ∧
+    patternReaches ⟨[.dstar, .wild "*.py"], false⟩ "build" = true := by decide
+
+/-- **Counterexample for the class**: with a rule that selects below `dist/` the second build differs — the abstract
+full statement is false. -/
+theorem rebuild_idempotent_full_statement_false : ¬ rebuild_idempotent_full_statement := by
+  intro h
+  let p : WheelPlan := ⟨false, [], [], "m", "", 0, [], [], [], "m-1.dist-info", "m-1.data"⟩
+  let r : IncludeRule := ⟨fun q => q.head? == some "dist", fun _ => "dist/x"⟩
+  let e : FileEntry := ⟨["dist", "x"], 33188, 0, 0, "", "", 0, "D", 1⟩
+  have := h id none p [r] [] [e] (by intro f hf; simp at hf; subst hf; left; rfl)
+  obtain ⟨es1, h1, l1⟩ := describeWheel_none_length id { p with toAdd := selectWheel [r] ([] ++ [e]) } rfl
+  obtain ⟨es2, h2, l2⟩ := describeWheel_none_length id { p with toAdd := selectWheel [r] [] } rfl
+  rw [h1, h2] at this
+  have : es1 = es2 := by injection this
+  rw [this, l2] at l1
+  revert l1
+  decide
+
+/-- sdist, abstract selection predicate -/
 theorem rebuild_idempotent_sdist_partial (sde : Option String) (tarDir pd : String) (pn : Nat) (su : Option (String × Nat)) (sel : PathKey → Bool)
     (tree extra : List FileEntry) (hx : ∀ f ∈ extra, sel f.rel = false) :
     describeSdist sde ⟨tarDir, selectSdist sel (tree ++ extra), pd, pn, su⟩ =
